@@ -49,6 +49,7 @@ class Rec:
         self.probes: dict[str, int] = {}
         self.stats: dict[str, float] = {"processes": 0, "effects": 0, "days": 0}
         self.states: list[str] = []
+        self.softs: list[dict] = []
 
     def probe(self, name: str, n: int = 1) -> None:
         if n:
@@ -72,9 +73,18 @@ class Rec:
     def note(self, what: str, **kw: Any) -> None:
         self.events.append({"note": what, **kw})
 
+    def soft(self, violation: dict) -> None:
+        """Record a violation and keep going (used for deviations that the run can
+        model and continue past, so that one defect does not hide the rest)."""
+        sig = (violation["clause"], violation.get("cause"))
+        if sig not in {(v["clause"], v.get("cause")) for v in self.softs}:
+            self.softs.append(violation)
+
     def result(self, violation: Optional[dict] = None, harness_error: Optional[str] = None) -> dict:
+        vs = ([violation] if violation else []) + self.softs
         return {
-            "violation": violation,
+            "violation": vs[0] if vs else None,
+            "violations": vs,
             "events": self.events,
             "probes": self.probes,
             "stats": self.stats,
